@@ -1547,3 +1547,75 @@ func searchPredicate(v ssa.Value) *ssa.Function {
 	}
 	return nil
 }
+
+// containsPredicate: v is slices.ContainsFunc(s, pred) - returns pred (a function of the module).
+func containsPredicate(v ssa.Value) *ssa.Function {
+	call, ok := stripConv(v).(*ssa.Call)
+	if !ok || len(call.Call.Args) != 2 {
+		return nil
+	}
+	sc := call.Call.StaticCallee()
+	if sc == nil || !strings.HasPrefix(sc.String(), "slices.ContainsFunc[") {
+		return nil
+	}
+	switch f := call.Call.Args[1].(type) {
+	case *ssa.MakeClosure:
+		fn, _ := f.Fn.(*ssa.Function)
+		return fn
+	case *ssa.Function:
+		return f
+	}
+	return nil
+}
+
+// typeMatches: t is the named type whose printed form ends in want ("crypto.Hash",
+// "signers.Signer" - also behind a pointer), or the basic type string for want == "string".
+func typeMatches(t types.Type, want string) bool {
+	if want == "string" {
+		bt, ok := t.(*types.Basic)
+		return ok && bt.Kind() == types.String
+	}
+	s := t.String()
+	return strings.HasSuffix(s, "/"+want) || s == want || strings.HasSuffix(s, "*"+want)
+}
+
+// actualOfType: what a call passes for the one input of the given type: the positional argument of
+// that type, or the field of that type of a request-struct literal passed by value.
+func actualOfType(call ssa.CallInstruction, want string) ssa.Value {
+	for _, a := range call.Common().Args {
+		if typeMatches(a.Type(), want) {
+			return a
+		}
+	}
+	for _, a := range call.Common().Args {
+		l, ok := a.(*ssa.UnOp)
+		if !ok || l.Op != token.MUL {
+			continue
+		}
+		lit, ok := l.X.(*ssa.Alloc)
+		if !ok {
+			continue
+		}
+		for _, r := range *lit.Referrers() {
+			fa, ok := r.(*ssa.FieldAddr)
+			if !ok {
+				continue
+			}
+			for _, r2 := range *fa.Referrers() {
+				if st, ok := r2.(*ssa.Store); ok && st.Addr == ssa.Value(fa) && typeMatches(st.Val.Type(), want) {
+					return st.Val
+				}
+			}
+		}
+	}
+	return nil
+}
+
+// inputOfType: v is fn's own input of the given type (a parameter, or a field of a parameter struct).
+func inputOfType(fn *ssa.Function, v ssa.Value, want string) bool {
+	if v == nil || !typeMatches(v.Type(), want) {
+		return false
+	}
+	_, _, ok := inputOf(fn, v)
+	return ok
+}
